@@ -156,11 +156,21 @@ def replay_layer(rep, prop, tier):
             if not r:
                 continue
             sig, msg, detail = r
+            if sig == "replay:not-realisable":
+                skipped_unrealisable = rep.coverage.get("behaviours_not_realisable", 0) + 1
+                rep.coverage["behaviours_not_realisable"] = skipped_unrealisable
+                continue
             fields = set(sig.split(":")[2].split(",")) if sig.startswith("replay:state:") else set()
             if sig.startswith("replay:state:") and not (fields & REPLAY_FIELDS[prop]):
                 continue  # belongs to another property's check
             if sig.startswith("replay:state:cons:rej:GrandCanonical") and fields == {"cons"}:
                 sig = "cons-shift-after-rejected-deletion"
+            if sig.startswith("replay:state:labels:acc:GrandCanonical:cexch") and fields == {"labels"}:
+                call = next(h for h in detail["trial"] if h["a"].startswith("called"))
+                nins = sum(1 for s in call["subs"] if s["ok"] and s.get("dir") == "ins")
+                pre, obs = detail["trial"][0]["s"]["labels"], detail["observed"]["labels"]
+                if nins >= 2 and all(obs[m][:len(pre[m])] == pre[m] and len(obs[m]) == len(pre[m]) + nins * beh["tmplLen"] and len(set(obs[m][len(pre[m]):])) == 1 for m in pre):
+                    sig = "multi-insert-share-label"  # exactly the recorded finding: the particles inserted by one trial share one label
             nbad += 1
             rep.violation(sig, f"{prop} (replay of a specification behaviour): {msg}", detail)
     finally:
@@ -230,7 +240,8 @@ def engine_check(prop, tier, level="model_checking", n_quick=240, n_thorough=240
                 if not consequence:  # a later rejected event of the same trial is reported with the first one
                     rep.violation(sig, f"{prop}: event {f['l']} ({f['a']} of '{f['name']}', verdict {f['verdict']}) of a {t['setup']['driver']} run is not a behaviour of QMC.tla: {f['kind']} {sorted(f['what'])} {f['exc']}",
                                   {"trace": {"setup": t["setup"], "ev": t["ev"][max(0, f["l"] - 6): f["l"]]}, "failure": f, "scenario_seed": t["setup"].get("scenario_seed"), "family": t["setup"].get("family")})
-            trial_bad = trial_start
+            if prop in props:
+                trial_bad = trial_start  # later rejected events of this trial that belong to this property are consequences
             if persistent:
                 stop_at = f["l"] + 1
                 truncated += 1
